@@ -52,6 +52,13 @@ KNOWN = [
 ]
 
 FIXED = [
+ ("C05", "49ac777", "(no rule) IndexManager::stats().total_entries counted sorted sections only: 5 un-flushed adds reported 0 (findings/R1/Y-d9)"),
+ ("C18", "5c1cc4a", "(no rule) validate_spans sorted by offset only: [(100,50),(100,0)] refused as overlapping, [(100,0),(100,50)] accepted (findings/R1/Y-d4)"),
+ ("C04", "3216818", "(no rule) Installation::write_file never saved the index: after reopen the object was unreachable (findings/R1/Y-d2)"),
+ ("C16", "f5fa085", "(no rule) build_chunked_patch returned Err(Empty control block) for every (old, empty new) pair (findings/R1/X-d4)"),
+ ("C03", "426d131", "(no rule) IndexEntry::to_bytes truncated offsets to the offset width: width 4, offset 0x1_0000_0005 came back as 5 (findings/R1/X-d3)"),
+ ("C01", "ed4151c", "(no rule) decrypt_chunk_with_keys demanded 17 bytes, the encoder writes 16 for empty content: with_encryption + empty payload built and parsed Ok, decode failed 'Encrypted chunk too short' (findings/R1/X-d2)"),
+ ("C01", "e7d4bb9", "C01.R8 BlteBuilder recorded inner.len() as decompressed_size of encrypted chunks: 64 content bytes -> 65, 10000 zero bytes (inner Z) -> 33 (findings/R1/X-d1; found by a reviewing agent, confirmed before / after)"),
  ("C03", "56ff118", "C03.R5 ContentResolver::clear_caches wiped the FileDataID map (not a cache): after clear_caches() every FileDataID of the loaded root resolved to None (findings/T15; noted by a seeding agent, confirmed)"),
  ("C08", "03650d5", "(no rule) ArchiveGroupBuilder::build chunk count from the byte total: 46002 entries built Ok, own output failed to parse (FileSizeMismatch), tail entries never written (findings/T14; noted by a seeding agent, confirmed)"),
  ("C08", "1f3fbd6", "C08.R1 patch archive block_count as u16: 65536 blocks announced as 0, parser returned an empty archive (findings/T12/site4)"),
